@@ -207,7 +207,7 @@ func monC05(x *Ctx) {
 				if target == "fresh" {
 					q = x.T.New()
 				} else {
-					q, _ = x.NewValue(in+"/prior", mDense)
+					q, _ = x.NewValue(in+"/prior", []int{mDense, mMixed, mBoundary}[i%3])
 					exclBefore = x.rootExcluded(q)
 				}
 				x.Eval(1)
